@@ -16,7 +16,7 @@ Base ==
   LET eseq == SetToSortSeq(es, LAMBDA x, y : x[1] < y[1] \/ (x[1] = y[1] /\ x[2] < y[2]))
       edges0 == [i \in 1..Len(eseq) |-> [f |-> eseq[i][1], t |-> eseq[i][2], req |-> (IF variant = 2 /\ i = 1 THEN "r2" ELSE "r1"), typ |-> "reg"]]
       edges == IF variant = 1 /\ Len(eseq) > 0 THEN Append(edges0, [edges0[1] EXCEPT !.typ = "dev"]) ELSE edges0
-  IN [nodes |-> [i \in 1..N |-> [ver |-> vers[i], errs |-> IF i = errn THEN <<"e1">> ELSE <<>>]], edges |-> edges]
+  IN [nodes |-> [i \in 1..N |-> [ver |-> vers[i], errs |-> IF i = errn THEN (IF variant = 0 THEN <<"e1">> ELSE <<"e2", "e1">>) ELSE <<>>]], edges |-> edges]
 \* model law: renumbering the non-root nodes and reversing the edge list gives an isomorphic graph
 Renumber(g, p) == [nodes |-> [i \in 1..NodeCount(g) |-> g.nodes[CHOOSE j \in 1..NodeCount(g) : p[j] = i]],
                    edges |-> [i \in 1..Len(g.edges) |-> LET e == g.edges[Len(g.edges) + 1 - i] IN [e EXCEPT !.f = p[e.f], !.t = p[e.t]]]]
